@@ -18,7 +18,7 @@ from .common import dominates
 PROPERTY = 'C02'
 
 META = {
-    'bounds': {'quick': 'n<=3 individuals with 4-5 objectives; ndarray costs n=3; n<=4 individuals with m<=2 objectives + boolean marker; n=3,m=1 with the real crowding_distance calls kept',
+    'bounds': {'quick': 'in-place replacement between two sorts of the same list (n<=3); n<=3 individuals with 4-5 objectives; ndarray costs n=3; n<=4 individuals with m<=2 objectives + boolean marker; n=3,m=1 with the real crowding_distance calls kept',
                'thorough': 'ndarray costs n=3 (m=2), n=4 (m=1); n=5,m=2; n<=4,m=3; n=6,m=1'},
     'stubs': ['crowding_distance(sub_front) at the end of the sorter replaced by a no-op (ranks do not depend on it; subject of C03) except in the *-crowd configurations',
               'ParetoDominance.compare called through its ite summary (validated against the real method)'],
